@@ -1,7 +1,7 @@
 import MythVerif.Model.WsQueue
 /-! x86-TSO model of the work-stealing queue: owner `push` / `pop` (all paths: lock-free fast
     path, locked slow path, reset) and owner `put` (base-side insert under the lock) against any
-    number of thieves running `myth_queue_take`.
+    number of other participants running `myth_queue_take` and `myth_queue_trypass`.
 
     Machine (DESIGN 3.2 / A.3): one FIFO store buffer per participant; a store appends to the
     own buffer; a load forwards from the newest own buffered store to that location, else reads
@@ -17,12 +17,12 @@ import MythVerif.Model.WsQueue
     machine for a lost or duplicated element (the violation search for "missing fence" changes,
     which SC interleavings cannot exhibit).
 
-    The base-side insertion (put) linearizes at the DRAIN of their `base` store (DESIGN A.3):
+    Base-side insertions (put, trypass) linearize at the DRAIN of their `base` store (DESIGN A.3):
     that store is the buffer entry `Sto.baseI v e`, a store of `v` to `base` carrying the ghost tag
     `e` (the element whose slot store precedes it in the same FIFO buffer); draining it conses `e`
     to the abstract deque.
 
-    Not modelled here (the `_partial` in the theorem name): trypass / peek / wsapi functions, the steal
+    Not modelled here (the `_partial` in the theorem name): peek / wsapi functions, the steal
     cache, clear, re-centring (a push at `top == size` goes to `stuck`, a put at `base == 0` goes
     to `stuckL` – still holding the lock, as the code does while it re-centres). -/
 namespace MythVerif.WsqTso
@@ -43,7 +43,7 @@ inductive Sto where
   | base (v : Int)
   | ptr (i : Int) (x : Option Elem)
   | unlock
-  | baseI (v : Int) (e : Elem)       -- store of `base` by put (ghost tag: the element inserted)
+  | baseI (v : Int) (e : Elem)       -- store of `base` by put / trypass (ghost tag: the element inserted)
   deriving DecidableEq, Repr
 
 inductive OPc where
@@ -86,6 +86,12 @@ inductive TPc where
   | tk4 (r : Option Elem)            -- unlock
   | tk5 (b : Int)                    -- q->base = b
   | tk6                              -- unlock
+  | tpl (e : Elem)                   -- trylock CAS (failure: return 0)
+  | tp1 (e : Elem)                   -- if (q->base == 0)
+  | tp1b (e : Elem)                  -- b = q->base
+  | tp2 (e : Elem) (b : Int)         -- q->ptr[b-1] = th          (wbarrier: compiler only)
+  | tp3 (e : Elem)                   -- q->base--
+  | tp4 (ok : Bool)                  -- unlock ; return ok
   deriving DecidableEq, Repr
 
 structure St where
@@ -138,7 +144,7 @@ def viewPtr : List Sto → (Int → Option Elem) → Int → Option Elem
   | .baseI _ _ :: r, m, i => viewPtr r m i
 
 /-- drain one store into memory (ghost `tr` follows the memory value of `base`; the drain of an
-    inserting `base` store is the linearization point of put) -/
+    inserting `base` store is the linearization point of put / trypass) -/
 def applySto (s : St) : Sto → St
   | .top v => { s with top := v }
   | .base v => { s with base := v, tr := decide (v = s.lb + 1) }
@@ -148,7 +154,7 @@ def applySto (s : St) : Sto → St
 
 inductive Lbl where
   | oPush (e : Elem) | oPop | oPut (e : Elem) | o | flushO
-  | tTake (p : Pid) | t (p : Pid) | flushT (p : Pid)
+  | tTake (p : Pid) | tPass (p : Pid) (e : Elem) | t (p : Pid) | flushT (p : Pid)
   deriving DecidableEq, Repr
 
 /-- fence: enabled on an empty buffer (or always, when that fence is switched off) -/
@@ -240,6 +246,18 @@ def stepT (s : St) (p : Pid) : Option St :=
                 { s' with tpc := upd s.tpc p .idle, retd := retOpt s.retd r, flT := none }
   | .tk5 b => some { s with bufT := upd s.bufT p (s.bufT p ++ [.base b]), tpc := upd s.tpc p .tk6 }
   | .tk6 => (releaseT s p).map fun s' => { s' with tpc := upd s.tpc p .idle }
+  | .tpl e => if (s.bufT p).isEmpty then
+                match s.lock with
+                | .free => some { s with lock := .thief p, tpc := upd s.tpc p (.tp1 e) }
+                | _ => some { s with tpc := upd s.tpc p .idle }       -- trylock failed: return 0
+              else none
+  | .tp1 e => if viewBase (s.bufT p) s.base = 0 then some { s with tpc := upd s.tpc p (.tp4 false) }
+              else some { s with tpc := upd s.tpc p (.tp1b e) }
+  | .tp1b e => some { s with tpc := upd s.tpc p (.tp2 e (viewBase (s.bufT p) s.base)) }
+  | .tp2 e b => some { s with bufT := upd s.bufT p (s.bufT p ++ [.ptr (b - 1) (some e)]), tpc := upd s.tpc p (.tp3 e) }
+  | .tp3 e => let b := viewBase (s.bufT p) s.base
+              some { s with bufT := upd s.bufT p (s.bufT p ++ [.baseI (b - 1) e]), tpc := upd s.tpc p (.tp4 true) }
+  | .tp4 _ => (releaseT s p).map fun s' => { s' with tpc := upd s.tpc p .idle }
 
 def step (s : St) : Lbl → Option St
   | .oPush e => match s.opc with
@@ -257,6 +275,9 @@ def step (s : St) : Lbl → Option St
     | [] => none
   | .tTake p => match s.tpc p with
     | .idle => some { s with tpc := upd s.tpc p .tq0 }
+    | _ => none
+  | .tPass p e => match s.tpc p with
+    | .idle => some { s with tpc := upd s.tpc p (.tpl e) }
     | _ => none
   | .t p => stepT s p
   | .flushT p => match s.bufT p with
